@@ -110,6 +110,16 @@ def err_handling(body, call, _fate=None):
             c = body.call_at(x)
             if c is not None and (c.matches(LOG_CALL) or (c.dest[0] == 0 and c.matches(r'FromResidual.*>::from_residual$'))):
                 return True
+            # the value returned comes from a local helper / closure that can only return an Err (`return refuse(..)`)
+            if c is not None and c.dest and c.dest[0] == 0 and not c.dest[1] and is_result_ty(c.dty):
+                hb_ = body.unit.body(c.path) if c.path else None
+                if hb_ is None and c.args:
+                    from ..facts import op_local as _ol
+                    l_ = _ol(c.args[0])
+                    cp_ = body.unit.closure_of_type(body.local_ty(l_)) if l_ is not None else None
+                    hb_ = body.unit.body(cp_) if cp_ else None
+                if hb_ is not None and return_variants_from(hb_, 0) == {'Err'}:
+                    return True
             # the value returned is computed from the error (a helper that wraps it into the Err to return)
             if c is not None and c.dest and c.dest[0] == 0 and not c.dest[1] and is_result_ty(c.dty) and any(k_.bb == call.bb for a_ in c.args for k_ in backslice(body, [a_]).calls):
                 return True
